@@ -182,6 +182,8 @@ type dsSim struct {
 	wireRequests   int
 	everRequested  map[bitcoin.Hash32]bool
 	forkExpect     []*verifkit.Block // first block of a branch that forked among pending blocks: it must be requested
+	syncRaces      int // syncrace steps that hit the window
+	syncRaceWindows int
 	forkInWindow   int // forkwindow steps that found a requested, unprocessed block to fork at
 	rerequests     int // legitimate repeats on one connection (after the node abandoned the branch)
 	// the node was restarted on a stored chain that no longer contains the configured start block
